@@ -24,6 +24,9 @@ const SLACK_MS: u64 = 2000;
 fn loopback(ipv: u64) -> IpAddr { if ipv == 6 { "::1".parse().unwrap() } else { "127.0.0.1".parse().unwrap() } }
 
 fn settings(r: usize, tc: &str) -> Option<TimeoutSettings> {
+    if tc == "default" {
+        return None; // the documented defaults apply
+    }
     let write = if tc == "rw" { Some(Duration::from_millis(T_MS + 50)) } else { None };
     Some(TimeoutSettings::new(Some(Duration::from_millis(READ_MS)), write, Some(Duration::from_millis(T_MS)), r).unwrap())
 }
@@ -113,6 +116,31 @@ fn run_real(c: &Value, batches: &[Vec<Vec<u8>>]) -> Result<(u64, Result<Value, S
         if mode == "refuse" {
             drop(l);
             (addr, None)
+        } else if mode == "blackhole" {
+            // nobody accepts: once the accept queue is full the kernel drops further SYNs and a connect never completes
+            let mut fillers = Vec::new();
+            let mut full = false;
+            for _ in 0 .. 600 {
+                match std::net::TcpStream::connect_timeout(&addr, Duration::from_millis(120)) {
+                    Ok(s) => fillers.push(s),
+                    Err(_) => {
+                        full = true;
+                        break;
+                    }
+                }
+            }
+            if !full {
+                return Err("could not fill the accept queue of the blackhole listener".into());
+            }
+            let stop2 = stop.clone();
+            let h = std::thread::spawn(move || {
+                while !stop2.load(Ordering::Relaxed) {
+                    std::thread::sleep(Duration::from_millis(5));
+                }
+                drop(fillers);
+                drop(l);
+            });
+            (addr, Some(h))
         } else {
             l.set_nonblocking(true).unwrap();
             let (stop2, seen2) = (stop.clone(), seen.clone());
@@ -138,7 +166,7 @@ fn run_real(c: &Value, batches: &[Vec<Vec<u8>>]) -> Result<(u64, Result<Value, S
             (addr, Some(h))
         }
     };
-    let bound_ms = c["__b"].as_u64().unwrap() * T_MS + SLACK_MS;
+    let bound_ms = c["__b"].as_u64().unwrap() * c["__stepms"].as_u64().unwrap_or(T_MS) + SLACK_MS;
     let (tx, rx) = std::sync::mpsc::channel();
     let p2 = p.clone();
     std::thread::spawn(move || {
@@ -167,6 +195,7 @@ pub fn replay(fctx: &fuzz::Ctx, cases: &[Value], seed: u64, rep: &mut Report) {
         let mut c = line["c"].clone();
         c["__b"] = line["b"].clone();
         c["__class"] = line["class"].clone();
+        c["__stepms"] = line["stepms"].clone();
         let p = c["p"].as_str().unwrap().to_string();
         // plain single-datagram replies only (no challenge / split), so that `answered` counts request units
         let batches: Vec<Vec<Vec<u8>>> = if p == "eco" {
@@ -205,7 +234,7 @@ pub fn replay(fctx: &fuzz::Ctx, cases: &[Value], seed: u64, rep: &mut Report) {
         rep.distinct.insert(hash_of(&c.to_string()));
         let p = c["p"].as_str().unwrap();
         let class = c["__class"].as_str().unwrap();
-        let bound_ms = c["__b"].as_u64().unwrap() * T_MS + SLACK_MS;
+        let bound_ms = c["__b"].as_u64().unwrap() * c["__stepms"].as_u64().unwrap_or(T_MS) + SLACK_MS;
         let (ms, outcome, reqs) = match res {
             Ok(x) => x,
             Err(e) => {
